@@ -252,6 +252,52 @@ theorem C06_stored (σ : SSchema) (hσ : σ.WF) (sk : ResSke) (r : AnyRes)
     rw [e3 f hf]
     exact r3 f hna hnr (namesOk_mem h3 hf).1
 
+/-! ### Re-marshaling the linkage, and the known finding C06-toone-empty-id -/
+
+/-- An accepted, present, non-null to-one linkage whose id is not empty re-marshals (data
+requested) as exactly the payload's identifier: the relationship's target type and that id. -/
+theorem C06_remarshal_toOne (rel : Rel) (rv : RelRaw) (id : GoString) (r : ResView) (prepath : GoString)
+    (h1 : rel.toOne = true) (hp : rv.present = true) (hn : rv.isNull = false)
+    (hv : relValue rel rv = (some (.val .string (.s id)), false)) (hid : id ≠ [])
+    (hget : r.get rel.fromName = .val .string (.s id)) :
+    rv.decIdent = some (id, rel.toType) ∧
+    marshalRel r prepath rel true =
+      .ok (.obj [(K.data, identifierJson id rel.toType), (K.links, buildRelationshipLinks r prepath rel.fromName)], none) := by
+  constructor
+  · unfold relValue at hv
+    simp only [hp, h1, hn] at hv
+    cases hd : rv.decIdent with
+    | none => simp [hd] at hv
+    | some p =>
+      obtain ⟨i, t⟩ := p
+      simp [hd] at hv
+      obtain ⟨rfl, ht⟩ := hv
+      simp [ht]
+  · simp [marshalRel, h1, hget, hid]
+
+/-- An accepted to-many linkage re-marshals (data requested) as the listed IDs, sorted, each
+with the relationship's target type. -/
+theorem C06_remarshal_toMany (rel : Rel) (ids : List GoString) (r : ResView) (prepath : GoString)
+    (h1 : rel.toOne = false) (hget : r.get rel.fromName = .strs ids) :
+    marshalRel r prepath rel true =
+      .ok (.obj [(K.data, .arr ((Typ.sortStrings ids).map (fun id => identifierJson id rel.toType))),
+                 (K.links, buildRelationshipLinks r prepath rel.fromName)], some (Typ.sortStrings ids)) := by
+  simp [marshalRel, h1, hget]
+
+/-- Known finding (pinned by TestUnmarshalPartialResource): a to-one linkage identifier
+without id, or with the empty id, carrying the target type is accepted - the relationship is
+set to the empty string and no error is returned - and an empty to-one re-marshals as `null`,
+not as the payload's identifier. -/
+theorem C06_known_toOne_empty_id (rel : Rel) (r : ResView) (prepath : GoString) (h1 : rel.toOne = true)
+    (hget : r.get rel.fromName = .val .string (.s [])) :
+    relValue rel { present := true, isNull := false, decIdent := some ([], rel.toType), decIdents := none }
+      = (some (.val .string (.s [])), false) ∧
+    marshalRel r prepath rel true =
+      .ok (.obj [(K.data, .null), (K.links, buildRelationshipLinks r prepath rel.fromName)], none) := by
+  constructor
+  · simp [relValue, h1]
+  · simp [marshalRel, h1, hget]
+
 /-! ### Non-vacuity -/
 
 /-- int8: "-128" accepted and stored as -128; "128", "1e2", "+1" rejected; null rejected for
@@ -292,4 +338,7 @@ open Jsonapi
 #print axioms C06_rel_toOne
 #print axioms C06_rel_toMany
 #print axioms C06_stored
+#print axioms C06_remarshal_toOne
+#print axioms C06_remarshal_toMany
+#print axioms C06_known_toOne_empty_id
 end Axioms
